@@ -242,6 +242,9 @@ POISON = -77.0
 STALE = "100000 100000 7.5\n" * 3     # content of a pair file left behind by some earlier match
 
 
+_ALT12 = [0]
+
+
 def as_variant(vals, variant):
     """the float64 values in the requested container/layout"""
     a = np.array(vals, dtype="f8")
@@ -267,6 +270,11 @@ def as_variant(vals, variant):
         # the same values as a 2-d array (two rows when the length is even, else one row): the entry points
         # return 1-d results of arr.size elements, so a multi-dimensional array means its flattened elements
         return a.reshape(2, -1).copy() if (a.size % 2 == 0 and a.size >= 2) else a.reshape(1, -1).copy()
+    if variant in ("2d-F", "2d-alt"):
+        # the same 2-d array in column-major MEMORY order (logical order unchanged); "2d-alt": every other argument
+        b = as_variant(vals, "2d")
+        _ALT12[0] += 1
+        return np.asfortranarray(b) if (variant == "2d-F" or _ALT12[0] % 2 == 1) else b
     if variant == "scalar":
         return float(a[0]) if a.size == 1 else a
     raise ValueError(variant)
@@ -728,6 +736,9 @@ def main(ctx):
         ("bases", "sphere", "list"),
         ("bases", "dests", "2d"),
         ("odd", "all", "2d"),
+        ("bases", "dests", "2d-F"),
+        ("odd", "all", "2d-alt"),
+        ("all", "even", "2d-alt"),
         ("sphere", "sphere", "native"),     # quasi-uniform on the sphere, self-match
         ("cap30", "sphere", "native"),
         ("cap1e-4", "cap1e-4", "native"),   # clustered: 48 points within 1e-4 deg of a generic point
